@@ -148,12 +148,12 @@ class Engine:
         self.solver.add(c)
         self.pc.append(c)
 
-    def assume(self, c, note=None):
+    def assume(self, c, note=None, check=True):
         c = SB.of(c).e
         if note and note not in self.assumptions:
             self.assumptions.append(note)
         self.add(c)
-        if self.check() != z3.sat:
+        if check and self.check() != z3.sat:
             raise Abort()
 
     # ------------------------------------------------------------------ forks
@@ -263,21 +263,28 @@ class Engine:
     # ------------------------------------------------------------------ obligations
     def _obligation_solver(self, terms):
         # pure QF_NRA goes to nlsat; everything else to the default portfolio
-        nonlin = False
-        hasint = False
-        for t in terms:
-            s = t.sexpr()
-            if "Int" in s or "to_real" in s or "to_int" in s or " div " in s or " mod " in s:
-                hasint = True
-            if "*" in s:
-                nonlin = True
-        # Int detection via sexpr is approximate; verify through variable sorts
-        if nonlin and not self._has_int_vars(terms):
+        if self._nonlinear(terms) and not self._has_int_vars(terms):
             s = z3.Tactic("qfnra-nlsat").solver()
         else:
             s = z3.Solver()
         s.set("timeout", self.obl_timeout_ms)
         return s
+
+    @staticmethod
+    def _nonlinear(terms):
+        seen = set()
+        stack = list(terms)
+        while stack:
+            t = stack.pop()
+            i = t.get_id()
+            if i in seen:
+                continue
+            seen.add(i)
+            if z3.is_app(t):
+                if t.decl().kind() == z3.Z3_OP_MUL and sum(1 for c in t.children() if z3val(c) is None) >= 2:
+                    return True
+                stack.extend(t.children())
+        return False
 
     def _has_int_vars(self, terms):
         seen = set()
@@ -294,16 +301,14 @@ class Engine:
                         return True
                 else:
                     k = t.decl().kind()
-                    if k in (z3.Z3_OP_TO_REAL, z3.Z3_OP_TO_INT, z3.Z3_OP_IDIV, z3.Z3_OP_MOD):
-                        return True
-                    if k == z3.Z3_OP_UNINTERPRETED:
+                    if k in (z3.Z3_OP_TO_INT, z3.Z3_OP_IDIV, z3.Z3_OP_MOD, z3.Z3_OP_UNINTERPRETED):
                         return True
                     stack.extend(t.children())
         return False
 
     def decide(self, neg_claim):
         """check pc /\\ neg_claim in a fresh solver.  Returns ('unsat'|'sat'|'unknown', model|None)."""
-        terms = [*self.pc, neg_claim]
+        terms = [z3.simplify(t) for t in (*self.pc, neg_claim)]
         s = self._obligation_solver(terms)
         s.add(*terms)
         self.queries += 1
@@ -350,13 +355,26 @@ class Engine:
                 out[name] = val
         return out
 
-    def prove(self, claim, clause, info=None):
+    def prove(self, claim, clause, info=None, quick=False):
         """Obligation: claim holds on every input reaching this point."""
         claim = SB.of(claim).e
         self.obligations += 1
         st = self.clauses.setdefault(clause, dict(obligations=0, discharged=0, violated=0, unknown=0))
         st["obligations"] += 1
-        r, m = self.decide(z3.Not(claim))
+        r = None
+        if quick:
+            # linear side conditions (index ranges): the incremental core decides them in microseconds
+            self.solver.set("timeout", 2000)
+            self.queries += 1
+            t = time.time()
+            try:
+                if self.solver.check(z3.Not(claim)) == z3.unsat:
+                    r, m = "unsat", None
+            finally:
+                self.t_solver += time.time() - t
+                self.solver.set("timeout", 60000)
+        if r is None:
+            r, m = self.decide(z3.Not(claim))
         if r == "unsat":
             self.discharged += 1
             st["discharged"] += 1
@@ -560,14 +578,17 @@ def _num_like(o):
 class SN(Sym):
     """number: z3 Int or Real"""
 
-    __slots__ = ("e",)
+    __slots__ = ("e", "_i")
 
     def __init__(self, e):
         self.e = e
+        self._i = None
 
     @property
     def isint(self):
-        return self.e.sort() == z3.IntSort()
+        if self._i is None:
+            self._i = z3.Z3_get_sort_kind(self.e.ctx_ref(), z3.Z3_get_sort(self.e.ctx_ref(), self.e.as_ast())) == z3.Z3_INT_SORT
+        return self._i
 
     @staticmethod
     def of(x):
@@ -861,14 +882,27 @@ def _int_linear(e):
     return None
 
 
-def _floor_term(e):
-    """floor of a Real term as SN int: symbolic when the term is integer-valued plus a constant,
-    otherwise concretised through real interval constraints (never a to_int term)"""
-    r = _int_linear(z3.simplify(e))
+def _floor_sym(e):
+    """z3 Int term equal to floor(e) without concretising, or None"""
+    r = _int_linear(e)
     if r is not None:
         it, c = r
         fl = math.floor(c)
-        return SN.of(fl) if it is None else SN(it + fl)
+        return z3.IntVal(fl) if it is None else it + fl
+    if z3.is_app(e) and e.decl().kind() == z3.Z3_OP_ITE:
+        a, b = _floor_sym(e.arg(1)), _floor_sym(e.arg(2))
+        if a is not None and b is not None:
+            return z3.If(e.arg(0), a, b)
+    return None
+
+
+def _floor_term(e):
+    """floor of a Real term as SN int: symbolic when the term is integer-valued plus a constant
+    (or an if-then-else of such), otherwise concretised through real interval constraints
+    (never a to_int term)"""
+    r = _floor_sym(z3.simplify(e))
+    if r is not None:
+        return SN(r)
     return SN.of(E.conc_floor(e))
 
 
